@@ -42,7 +42,7 @@ def main():
      'setup_cmd': 'bin/verif setup',
      'hooks': {'guard': 'SVT_AV1_VERIF',
                'enable': 'bin/build-lib.sh adds -DSVT_AV1_VERIF (and -DNDEBUG) to CMAKE_C_FLAGS/CMAKE_CXX_FLAGS of the out-of-tree verification builds under /verif/.build/{plain,asan}; scheduling, clock, allocation and topology seams need no source change (link-time -Wl,--wrap, sim/wraps.txt)',
-               'baseline_off_cmd': 'cmake --build /repo/_build -j8 && ctest --test-dir /repo/_build -j8 --timeout 900',
+               'baseline_off_cmd': 'cmake --build /repo/_build -j8 -- -k 0; ctest --test-dir /repo/_build -j8 --timeout 900',
                'source_commits': [c.split()[0] for c in commits if c], 'add_only': True},
      'engines': [{'name': 'simworld', 'path': 'sim/simcore.c + worlds/*.cc,*.c + oracles/*.cc', 'serves_properties': sorted(CHECKS.keys()), 'kind_free_text': 'deterministic simulator: real pthreads parked on futexes, one baton holder; seeded scheduler policies; simulated OS objects, clock, machine, heap ledger and fault injection; reference decoders via dlopen'},
                  {'name': 'driver', 'path': 'bin/verif + py/vf/*.py', 'serves_properties': sorted(CHECKS.keys()), 'kind_free_text': 'case generation (swarm), parallel execution, oracles, reproduce-twice gate, minimisation, replay files, known findings, evidence'}],
